@@ -355,6 +355,47 @@ def r4(ctx):
             p2 = f.uncut_path(ev, active)
             ctx.check('R4', '%s:needs-ACTIVE' % name, p2 is None, ev, 'non-zero result needs state == ACTIVE',
                       'a non-zero result is returned for a timer that is not pending')
+    # times are unsigned 64-bit all the way: a difference kept in a signed variable turns every pending duration of 2^63 ns or more
+    # (UINT64_MAX is "never") into "expired", i.e. 0 for a timer that is pending
+    TIME_SRC = ('timerlist_expire_time', 'qb_util_nano_current_get', 'qb_util_nano_from_epoch_get')
+    for name in ('qb_loop_timer_expire_time_get', 'qb_loop_timer_expire_time_remaining'):
+        f = prog.fn(name)
+        rb_, rs_ = _int(prog, f.ret)
+        ctx.check('R4', '%s:result-is-unsigned-64' % name, rb_ == 64 and rs_ is False, f, 'the result is uint64', 'the result type is %s' % f.ret)
+        tainted, bad = set(), []
+        for _round in range(4):
+            for ev in f.events():
+                rhs = ev.rhs if ev.kind == 'STORE' else (ev.d.get('init') if ev.kind == 'DECL' else None)
+                if rhs is None or not isinstance(rhs, dict):
+                    continue
+                is_time = any((n.get('k') == 'call' and callee_of(n) in TIME_SRC) or (n.get('k') == 'var' and n['n'] in tainted) for n in walk(rhs))
+                if not is_time:
+                    continue
+                if ev.kind == 'DECL':
+                    nm, ty = ev.d['var'], ev.d.get('ty')
+                else:
+                    lu = unwrap(ev.lhs)
+                    if lu.get('k') != 'var':
+                        continue
+                    nm, ty = lu['n'], lu.get('ty')
+                b_, s_ = _int(prog, ty)
+                if nm not in tainted:
+                    tainted.add(nm)
+                    if not (b_ == 64 and s_ is False):
+                        bad.append((ev, nm, ty))
+        for ev in f.returns():
+            if ev.e is not None:
+                for n in walk(ev.e):
+                    if n.get('k') == 'cast' and n is not ev.e:
+                        b_, s_ = _int(prog, n.get('ty'))
+                        if b_ and (b_ < 64 or s_) and any(m.get('k') == 'var' and m['n'] in tainted for m in walk(n['e'])):
+                            bad.append((ev, estr(n, True), n.get('ty')))
+        if name.endswith('remaining') and not tainted:
+            raise AnalysisBroken('%s: no time value found' % name)
+        ctx.check('R4', '%s:times-stay-unsigned-64' % name, not bad, bad[0][0] if bad else f,
+                  'every time value and difference in %s is held in an unsigned 64-bit variable' % name,
+                  '%s holds a time or a time difference in %s: a pending timer whose remaining time is 2^63 ns or more (or that was added with UINT64_MAX) '
+                  'reads as expired - 0 although qb_loop_timer_is_running says it is pending' % (name, ', '.join('%s (%s)' % (nm, ty) for (_e, nm, ty) in bad)))
     ir = prog.fn('qb_loop_timer_is_running')
     rets = ir.returns()
     # expire_time_get() > 0 in either orientation; != 0 is the same thing for the unsigned result
